@@ -199,7 +199,10 @@ def s_load(draw, mdl: M.Model, kinds=('const', 'speed', 'pos', 'time')):
         load['cw'] = stall / noload * draw(st.floats(0, 0.5))
     if 'pos' in kinds and draw(st.booleans()):
         load['csin'] = stall * draw(st.floats(0.01, 0.4))
-        load['kpos'] = draw(st.floats(0.1, 10))
+        # keep the position-dependent term soft (csin * kpos * dt^2 / J_eq <= 0.1 at dt = 1/k): otherwise the
+        # discrete map is chaotic and metamorphic comparisons (C07, C12) are ill-conditioned
+        kmax = 0.1 * mdl.J_eq * mdl.k ** 2 / load['csin']
+        load['kpos'] = min(draw(st.floats(0.1, 10)), kmax)
     if 'time' in kinds and draw(st.booleans()):
         load['ct'] = stall * draw(st.floats(0.01, 0.4))
         load['period'] = draw(st.floats(2, 50)) / mdl.k
